@@ -138,6 +138,12 @@ func init() {
 			h("cont.H_Registry", map[string]int{"L": 2, "order_schemes": 1}, map[string]int{"L": 3, "order_schemes": 1}, []string{"rejected_add", "rejected_second_identity", "remove", "remove_keyed", "snapshot"}, 30, "history of L operations {Add directly, Add through a module, Remove, RemoveKeyed, Build} over a pool of two concrete types, an auxiliary type and an interface, keys {nil,k1}, group g1, six registration forms incl. multi-output ones that collide on their second identity; after every step Contains / ContainsKeyed / Count / ToSlice vs a reference registry; a final Build must use exactly the registry (resolvability per identity, group sizes, no constructor of a removed singleton runs); every provider built on the way is probed again after the later edits"),
 		}},
 	)
+	properties = append(properties,
+		propertySpec{ID: "C18", Harnesses: []harnessSpec{
+			h("cont.H_Builtins", map[string]int{"order_schemes": 1}, map[string]int{"order_schemes": 2}, []string{"consumer_resolved"}, 30, "scope tree (scope with caller context carrying a value and a cancel, child with nil context, grandchild with a derived value context, unrelated scope with nil context); a service of symbolic lifetime taking context.Context / Scope / Provider as parameters or parameter-object fields (4 shapes), optionally a scoped initializer taking all three; resolved at a symbolic node; identity of every injected built-in, direct requests, keyed requests, FromContext on scope and derived contexts, value and cancellation propagation"),
+			h("cont.H_Reserved", map[string]int{"order_schemes": 1}, map[string]int{"order_schemes": 1}, []string{"tried"}, 10, "ten ways of naming a built-in type in a registration (primary type, As, secondary return value, result-object field, with Name, with Group): all must be rejected, and the built-ins still resolve to the real thing"),
+		}},
+	)
 	hc := h("cont.H_Conc", conc(1), conc(1), []string{"both_done"}, 10, concDesc)
 	hcb := h("cont.H_CloseInCallback", map[string]int{"order_schemes": 1}, map[string]int{"order_schemes": 2}, []string{"callback_closed"}, 10, cbDesc)
 	properties = append(properties,
